@@ -147,8 +147,13 @@ def handleAnd (j : Json) : Except String Verdict := do
   let dflt := fIntD j "dflt" 0
   let groups ← (← fArr j "groups").mapM (fun g => do (← asList g).mapM (parseFiberIn dflt false))
   let fs := groups.flatten
-  if !(fs.all (FiberIn.shapeOk n)) || n == 0 || !(groups.all ascPre) then
+  if !(fs.all (FiberIn.shapeOk n)) || n == 0 then
     return { agree := true, spec := true, tags := ["OUT_OF_MODEL"] }
+  -- several fibers with the same outer point inside one call (e.g. a plain Python loop repeating
+  -- the intersection without any outer rank, consumed in one shot): the trace cannot tell them
+  -- apart, the two-finger / skip-ahead specification does not apply (the models are still compared
+  -- with the implementation); the leader-follower specification applies to every batching
+  let sepOk := groups.all ascPre
   let impl ← field j "impl"
   let ib ← (← fArr impl "batches").mapM (fun b => do
     match (← asList b) with
@@ -172,13 +177,14 @@ def handleAnd (j : Json) : Except String Verdict := do
   -- display during the merge (consumed ones and the trailing one), from the coordinate lists alone
   let usesA := ((fs.map (fun f => (andUses 0 f.a f.b).1.length)).sum : Nat)
   let usesB := ((fs.map (fun f => (andUses 0 f.a f.b).2.length)).sum : Nat)
-  let specParts := [("tf", decide (itf = some (tfSpecAll fs : Int))),
-                    ("sa", decide (isa = some (saSpecAll fs : Int))),
+  let specParts := [("tf", !sepOk || decide (itf = some (tfSpecAll fs : Int))),
+                    ("sa", !sepOk || decide (isa = some (saSpecAll fs : Int))),
                     ("lf0", decide (ilf0 = some (usesA : Int))),
                     ("lf1", decide (ilf1 = some (usesB : Int)))]
   let bad := fun (l : List (String × Bool)) => (l.filter (fun p => !p.2)).map (·.1)
   let tags := c19Dedup ([batchingTag groups, s!"ranks={n}"] ++ emptyCallTags groups ++ variantTags j ++ (fs.flatMap c19FiberTags) ++
     (match dirtyKind' groups with | some k => [k] | none => []) ++
+    (if sepOk then [] else ["same-outer-point-in-one-call"]) ++
     (if rowsExact then ["rows-exact"] else ["rows-differ-outside-points"]))
   let model := Json.mkObj [("tf", totalJson mtf), ("sa", totalJson msa), ("lf0", jInt mlf0), ("lf1", jInt mlf1),
     ("spec_tf", jNat (tfSpecAll fs)), ("spec_sa", jNat (saSpecAll fs))]
